@@ -2,6 +2,7 @@
    per-sample expansion of the ISO 14496-12 sample tables (C09Spec.v: durs/starts/ctos/sizes/chunk
    structure, one line each) plus the bytes the tables point at.  Definitions only. *)
 From V.lib Require Import Base.
+From V.c11 Require Import C11Model.
 From V.c09 Require Import C09Model C09Spec.
 From V.c05 Require Import C05Model C05FragModel.
 From V.c11 Require Import C11FetchModel.
@@ -52,3 +53,16 @@ Definition data_ok (f : pfile) (tb : tables) : bool :=
    does): the two agree when a track does not carry both boxes *)
 Definition one_offset_box (tb : tables) : bool :=
   match t_stco tb, t_co64 tb with Some _, Some _ => false | _, _ => true end.
+
+(* the part of a trak that getSegmentStartsFromVideo / getSegmentIntervals look at (C11Model.track), read off the
+   C09 tables: handler type and timescale come from hdlr/mdhd, the sample count is Stsz.SampleNumber, stts and
+   ctts as (count, value) runs (C11Model scans the ctts runs linearly; the counts are the differences of
+   CttsBox.EndSampleNr) *)
+Definition track_of (video : bool) (timescale : N) (tb : tables) : C11Model.track :=
+  C11Model.mkTrack video timescale (sz_number (t_stsz tb))
+    (combine (t_stts_count tb) (t_stts_delta tb)) (C09Model.t_stss tb)
+    (option_map (fun c => combine (diffs (ct_end c)) (ct_off c)) (C09Model.t_ctts tb)).
+
+(* a track of the input file: (is video, timescale, tables) *)
+Definition itrack := (bool * N * tables)%type.
+Definition itrack_of (t : itrack) : C11Model.track := track_of (fst (fst t)) (snd (fst t)) (snd t).
